@@ -40,6 +40,8 @@ pub struct Ctx {
     pub bin_dir: PathBuf,
     /// Directory holding crustabri binaries built from /repo.
     pub repo_bin_dir: PathBuf,
+    /// Committed regression inputs (one directory per property).
+    pub corpus_dir: PathBuf,
     pub evals: u64,
     hashes: HashSet<u64>,
     counters: BTreeMap<String, u64>,
@@ -86,6 +88,7 @@ impl Ctx {
             replay_dir,
             bin_dir,
             repo_bin_dir,
+            corpus_dir: PathBuf::from("/verif/corpus"),
             evals: 0,
             hashes: HashSet::new(),
             counters: BTreeMap::new(),
